@@ -9,6 +9,7 @@ import (
 
 	"pgregory.net/rapid"
 
+	_ "verif/harness/dec"
 	"verif/harness/enc"
 	"verif/harness/gen"
 	"verif/harness/known"
